@@ -4,7 +4,7 @@
    (on top of the LinkedGraph theorems of property C04, Graph/Ops*.v). *)
 From Coq Require Import List Bool Arith.
 From GolemV Require Import Graph.Heap Graph.Ops Graph.OpsChar Evo.Mutations Evo.MutationsProofs
-  Evo.MutationsCounts Evo.Crossovers Evo.CrossoversProofs.
+  Evo.MutationsCounts Evo.Crossovers Evo.CrossoversProofs Evo.SubgraphProofs.
 Import ListNotations.
 
 (* ---------------------------------------------------------------- the oracle decides the stated property *)
@@ -187,7 +187,49 @@ Theorem C17_exchange_parents_both_wf : forall sel h g1 g2, Inv2 h g1 g2 ->
 Proof. exact exchange_parents_both_ok. Qed.
 Print Assumptions C17_exchange_parents_both_wf.
 
-(* subgraph_crossover: not modelled (T2); its observed results are checked by cx_holds_b only. *)
+(* subgraph_crossover, for ALL choices: the first link (any pair of members), the pairs cut by the
+   while loop (any pairs; a pair that is no link cuts nothing), the connection indices and coins.
+   The model is either not a run of the function (Unmodelled: no first link although the graph has
+   links, a cut list after which source and target are still connected - the real loop goes on until
+   they are not -, a connection index out of range) or returns two well-formed children; no other
+   exception exists.  Nothing is assumed about uids: relatives are included (the renewal of
+   427b46f is what makes this true). *)
+Theorem C17_subgraph_crossover_wf : forall c h g1 g2, Inv2 h g1 g2 ->
+  (forall ts, sc_first1 c = Some ts -> In (fst ts) g1 /\ In (snd ts) g1) ->
+  (forall ts, sc_first2 c = Some ts -> In (fst ts) g2 /\ In (snd ts) g2) ->
+  match run_cx (XSubgraph c) (h, (g1, g2)) with
+  | Ok s' => WF (fst s') (fst (snd s')) /\ WF (fst s') (snd (snd s'))
+  | Raise e => e = Unmodelled
+  end.
+Proof. exact subgraph_crossover_wf. Qed.
+Print Assumptions C17_subgraph_crossover_wf.
+
+(* its two halves *)
+Theorem C17_get_subgraphs : forall h g first cuts, WF h g ->
+  (forall ts, first = Some ts -> In (fst ts) g /\ In (snd ts) g) ->
+  match get_subgraphs h g first cuts with
+  | Ok (h', (P0, P1), d) =>
+      heap_ok h' /\ length h <= length h' /\ WF h' P0 /\ WF h' P1 /\
+      (forall r, r < length h -> ~ In r g -> get h' r = get h r) /\
+      (forall x, In x P0 \/ In x P1 -> In x g \/ length h <= x) /\
+      ((P0 = P1 /\ d = []) \/ (forall x, In x P0 -> In x P1 -> False))
+  | Raise e => e = Unmodelled
+  end.
+Proof. exact get_subgraphs_good. Qed.
+Print Assumptions C17_get_subgraphs.
+
+Theorem C17_connect_subgraphs : forall h A B dA dB conns, WF h A -> WF h B ->
+  (forall x, In x A -> In x B -> False) ->
+  match connect_subgraphs h A B dA dB conns with
+  | Ok s' => WF (fst s') (snd s') /\ (forall x, In x (snd s') <-> In x A \/ In x B) /\
+             length (fst s') = length h /\
+             (forall r, ~ In r A -> ~ In r B -> get (fst s') r = get h r) /\
+             (filter (fun r => memb r dA) A = [] \/ filter (fun r => memb r dB) B = [] ->
+                forall T, WF h T -> WF (fst s') T)
+  | Raise e => e = Unmodelled
+  end.
+Proof. exact connect_subgraphs_good. Qed.
+Print Assumptions C17_connect_subgraphs.
 
 (* ---------------------------------------------------------------- the hypotheses are satisfiable *)
 (* a diamond with a tail: 0 <- {1, 2} <- 3 (3 is a parent of 1 and 2), 4 isolated *)
@@ -243,3 +285,22 @@ Proof. vm_compute. reflexivity. Qed.
 Example ex_cx_parents : both_wf (run_cx (XParentsBoth (Some 5)) (rel_h, (ex_g, rel_g2))) = true /\
                         both_wf (run_cx (XParentsOne (Some 6)) (rel_h, (ex_g, rel_g2))) = true.
 Proof. split; vm_compute; reflexivity. Qed.
+
+(* subgraph_crossover on the relatives: cut 0 -> 1 (and 0 -> 2, the other path to 3) in the first
+   graph, 6 -> 8 in the copy (then 5 -> 7 on the remaining path); one connection per child *)
+Example ex_cx_subgraph_relatives :
+  both_wf (run_cx (XSubgraph (mkSub (Some (1, 0)) [(2, 0)] (Some (8, 6)) [(7, 5)] [(0, 0, true)] [(0, 0, false)]))
+                  (rel_h, (ex_g, rel_g2))) = true.
+Proof. vm_compute. reflexivity. Qed.
+
+(* a cut list that leaves source and target connected is not a run *)
+Example ex_cx_subgraph_not_a_run :
+  run_cx (XSubgraph (mkSub (Some (1, 0)) [] (Some (8, 6)) [(7, 5)] [(0, 0, true)] [(0, 0, false)]))
+         (rel_h, (ex_g, rel_g2)) = Raise Unmodelled.
+Proof. vm_compute. reflexivity. Qed.
+
+(* a graph without links: one batch of copies serves both children *)
+Example ex_cx_subgraph_edgeless :
+  both_wf (run_cx (XSubgraph (mkSub None [] None [] [] []))
+                  ([mkNode 1 0 [] true; mkNode 2 1 [] true; mkNode 1 0 [] true], ([0; 1], [2]))) = true.
+Proof. vm_compute. reflexivity. Qed.
